@@ -29,10 +29,10 @@ EXTRACTS = ["C18"]
 THEOREMS = [
     "C18_discover_sound",
     "C18_discover_exact_partial",
-    "C18_discover_exact_partial_dec",
+    "C18_exclusion_by_components",
     "C18_discover_exact_string",
     "C18_discover_exact_general",
-    "C18_prefix_sibling_refuted",
+    "C18_root_marker_dir_lost_refuted",
     "C18_root_always_eligible",
     "C18_discover_order_free_partial",
     "C18_perm_same_tree",
@@ -52,7 +52,7 @@ RULE = ("random directory trees (depth <= 4; directory names drawn from plain na
         "forced ascending / descending / shuffled.  Non-trivial = at least two directories hold a project "
         "file and pruning removed at least one of them; distinct = distinct (tree, excluded, markers, order).")
 TRUSTED_BASE = [
-    "T1 harness/tr_c18.py: SPECIAL_DIRS, MARKER_FILES, project file tuple, test-directory rule, deferral file and the two allow_setup_py flags -> gen/C18Consts.v; literal shape check of _find_all_source_dirs / _extract_metadata / _find_all_distributions (fail-closed)",
+    "T1 harness/tr_c18.py (exclusion test as of /repo ca4e69e: whole components): SPECIAL_DIRS, MARKER_FILES, project file tuple, test-directory rule, deferral file and the two allow_setup_py flags -> gen/C18Consts.v; literal shape check of _find_all_source_dirs / _extract_metadata / _find_all_distributions (fail-closed)",
     "T2 harness/c18.py: tree generator, materialisation, read-back of the tree in os.scandir order, canonicalisation (paths relative to the repository root)",
     "os.walk (top-down, in-place pruning of dirs, symlinked directories listed but not entered), os.path.abspath/basename/commonprefix, set iteration, multiprocessing.pool.ThreadPool.imap_unordered are specifications validated by T2 only",
     "req_compile.metadata.extract_metadata is an oracle input of the model (outcome per directory: container / MetadataError / other exception), measured on the real code per case",
@@ -68,11 +68,12 @@ ASSUMPTIONS = [
 ]
 LEVEL_TEXT = ("Fifteen theorems over a Gallina model of _find_all_source_dirs (pruned os.walk on string paths) and of the two-pass, "
               "optionally threaded collection, for ALL trees, excluded paths, marker sets, analysis outcomes and schedules: soundness "
-              "(everything offered is a project root by path components, unguarded), exactness inside two decidable guards, exact "
-              "characterisation of the code with character-prefix exclusion, root eligibility, independence of the listing order "
+              "(everything offered is a project root by path components, unguarded), exactness inside one decidable guard (since "
+              "ca4e69e exclusion is by whole components: proved equal to the code's string test, no sibling sharing a name prefix is "
+              "lost), unguarded characterisation of the code, root eligibility, independence of the listing order "
               "(same-tree and permutation-at-any-depth forms, guarded), independence of the worker schedule (guarded), and three "
-              "_refuted witnesses replayed on /repo on every run: an excluded path removes a sibling sharing its name prefix; two "
-              "marker directories in the root make the result follow the listing order; a SystemExit in a pool worker hangs the "
+              "_refuted witnesses replayed on /repo on every run: a marker directory of the root is taken out although nothing "
+              "disqualifies it; two marker directories in the root make the result follow the listing order; a SystemExit in a pool worker hangs the "
               "threaded constructor.  Tied to /repo by generated tables, a literal shape check of the three methods and differential "
               "execution on trees materialised on disk (walk order, candidate sets and orders for parallelism 1 and 4).")
 LEVEL_NOTE = ("Trusted: Coq kernel, extraction, OCaml driver, T1 reader, T2 harness; os.walk / ThreadPool semantics are validated by T2 "
@@ -741,10 +742,13 @@ def oracle_roots(case: Dict[str, Any], tree: List[Any]) -> List[str]:
 
 
 def guards(case: Dict[str, Any], tree: List[Any]) -> Tuple[bool, bool]:
-    """(root_guard, aligned): the decidable guards of C18_discover_exact_partial, recomputed on the case
-    description in Python (compared with the model's root_guardb / alignedb on every case)."""
+    """(root_guard, name_prefix_case): the decidable guard of C18_discover_exact_partial recomputed on
+    the case description in Python (compared with the model's root_guardb on every case), and whether
+    some excluded path is a character prefix of a directory's path without being a component prefix
+    (the situation of the former prefix-sibling defect, fixed by ca4e69e: counted, no longer a guard)."""
     markers = {"__init__.py"} | set(case["markers"] or [])
     base = VBASE + "/" + case["root"]
+    base_c = _comps(base)
     paths: List[str] = []
 
     def go(t, p):
@@ -752,21 +756,19 @@ def guards(case: Dict[str, Any], tree: List[Any]) -> Tuple[bool, bool]:
             paths.append(p + "/" + s[0])
             go(s, p + "/" + s[0])
     go(tree, base)
-    aligned = True
+    prefix_case = False
     for e in case["excl"]:
         ec = _comps(e)
-        for p in paths:
+        for p in paths + [base]:
             if p.startswith(e) and _comps(p)[:len(ec)] != ec:
-                aligned = False
-    root_excl0 = case["root"] in ORACLE_SPECIAL or any(base.startswith(e) for e in case["excl"])
+                prefix_case = True
+    root_excl0 = case["root"] in ORACLE_SPECIAL or any(base_c[:len(_comps(e))] == _comps(e) for e in case["excl"])
     root_guard = root_excl0 or not any(s[0] in markers for s in tree[2])
-    return root_guard, aligned
+    return root_guard, prefix_case
 
 
 def in_guard(case: Dict[str, Any], tree: List[Any]) -> Tuple[bool, str]:
-    rg, al = guards(case, tree)
-    if not al:
-        return False, "prefix-sibling"
+    rg, _ = guards(case, tree)
     if not rg:
         return False, "root-marker-dir"
     return True, ""
@@ -861,7 +863,10 @@ def compare_cases(ctx: "Ctx", cases: List[Dict[str, Any]], results: List[Dict[st
         ctx.count("walked-dirs", len(walk_impl))
         guard_ok, why = in_guard(case, tree)
         ctx.count("guard:" + ("inside" if guard_ok else why))
-        g_py = "%d %d" % tuple(int(x) for x in guards(case, tree))
+        rg_py, prefix_case = guards(case, tree)
+        if prefix_case:
+            ctx.count("name-prefix-of-excluded-path-cases")
+        g_py = "%d" % int(rg_py)
         if g_py != ans["G"]:
             ctx.mismatch("guards", _case_payload(case, res), g_py, ans["G"])
         elif guard_ok and sorted(walk_model) != sorted(oracle_roots(case, tree)):
@@ -956,6 +961,22 @@ def correspondence(ctx: "Ctx") -> None:
         results += run_worker(ctx, cases[k:k + chunk], "gen%d" % k)
     compare_cases(ctx, cases, results)
     coq_recheck(ctx, cases, results, ctx.n(25, 120))
+    # the exclusion test on strings, against the expression of the code evaluated by CPython
+    xs = []
+    pool = ["/B/r", "/B/r/excl", "/B/r/excl2", "/B/r/excl/sub", "/B/r/ex", "/B", "/", "/B/r/excl/", "/B/r//", "//", "",
+            "/B/r/excl//x", "/Bx", "/B/r/exc l", "/B/r/excl2/y"]
+    for _ in range(ctx.n(300, 3000)):
+        e, pth = rng.choice(pool), rng.choice(pool)
+        if rng.random() < 0.3:
+            e = pth[: rng.randrange(len(pth) + 1)]
+        xs.append((e, pth))
+    answers = run_model("C18", ["X " + hx(e) + " " + hx(pth) for e, pth in xs])
+    for (e, pth), a in zip(xs, answers):
+        exp = hx(e.rstrip(os.sep)) + " " + ("1" if (pth == e or pth.startswith(e.rstrip(os.sep) + os.sep)) else "0")
+        ctx.case(key=("X", e, pth), nontrivial=False)
+        ctx.count("kind:exclusion-test")
+        if a != exp:
+            ctx.mismatch("exclusion-test", [e, pth], exp, a)
     # basename / test-directory rule on strings
     names = sorted(set(PLAIN + SPECIALS + SPECIAL_NEAR + TESTS + TESTS_NEAR + ["a/b", "/x/y/tests", "x/", "", "/", "a//b-test"]))
     answers = run_model("C18", ["B " + hx(s) for s in names])
@@ -1071,7 +1092,8 @@ def replay_known(ctx: "Ctx", entry: Dict[str, Any]) -> Optional[bool]:
         return None
     r = res[0]
     if data["kind"] == "lost-sibling":
-        return data["lost"] not in r["walk"] and data["lost"] not in (r["cand1"][1] if r["cand1"][0] == "OK" else [])
+        # fixed by ca4e69e: True (= the defect is back) iff the sibling is lost again
+        return data["lost"] not in r["walk"] or data["lost"] not in (r["cand1"][1] if r["cand1"][0] == "OK" else [])
     if data["kind"] == "order-dependent":
         return sorted(res[0]["walk"]) != sorted(res[1]["walk"])
     if data["kind"] == "hang":
